@@ -19,12 +19,23 @@
    (a) for the writer's encoder by the block round trip of C01, (b) for the independent
    encoder by engine rd: on every generated file the extracted table_check must accept
    and its entry list must equal what was encoded - after which this theorem applies -
-   and implementation and model are compared on iteration, lookups and seeks.
+   and implementation and model are compared on iteration, lookups and seeks;
+   (c) for the independent encoder spec/Encode.v - written in Gallina from the format
+   description alone, parameterised by EVERY legal layout choice (format v1 / v2, leading
+   foreign bytes, compression algorithm, how the entries are cut into blocks, per block the
+   set of restart entries and the amount of prefix sharing of every other entry (anything up
+   to the common prefix), any separator key in the legal interval, the index block's own
+   restarts and sharing) - by the theorems T11c_* below: for every entry list and every layout
+   accepted by the executable legality test layout_ok, the reader model opens the encoded
+   file, table_check accepts it with exactly the chosen blocks, and iteration, lookups and
+   next / seek histories return the encoded entries.  The extracted encode_table is the
+   generator of engine rd's "independent encoder" tables, so the very files the theorem
+   speaks about are the ones the real reader is run on.
    Not covered by proof: restart arrays above 4 GiB (the model has the branch; it is
    executed by engine rd on a sparse block only through block_init). *)
 From Coq Require Import NArith ZArith List Lia.
 From Mtbl Require Import model.Bytes model.Order model.Writer spec.Parse model.Reader spec.TableCheck
-  proofs.BlockProofs proofs.LookupProofs proofs.ReaderProofs proofs.CheckProofs.
+  proofs.BlockProofs proofs.LookupProofs proofs.ReaderProofs proofs.CheckProofs proofs.LegalTables spec.Encode proofs.EncodeProofs.
 Local Open Scope N_scope.
 
 Theorem T11_legal_tables : forall decompress r ib iridx bl,
@@ -51,15 +62,7 @@ Theorem T11_legal_tables : forall decompress r ib iridx bl,
      | Ok None => gfirst nb (blk bl) key = total nb (blk bl)
      | _ => False
      end).
-Proof.
-  intros decompress r ib iridx bl H nb es. pose proof (table_check_sound decompress r ib iridx bl H) as T.
-  assert (Hlen : length es = total nb (blk bl)) by (unfold es, table_entries_of, Gents, total; apply map_length).
-  split; [|split; [|split]].
-  - intros fuel Hf. eapply table_iter_all; [exact T|lia].
-  - intros kind k0 k1 fuel Hk Hf. eapply table_lookup; [exact T|exact Hk|lia].
-  - eapply table_history_iter; exact T.
-  - eapply table_history_lookup; exact T.
-Qed.
+Proof. exact legal_tables. Qed.
 Print Assumptions T11_legal_tables.
 
 (* the table without entries (an index block with no entry and one restart point, which is
@@ -68,15 +71,7 @@ Theorem T11_empty_table : forall decompress r ib r0,
   r_index r = Some ib -> ab_entries ib = [] -> ab_restarts ib = [r0] ->
   reader_iter decompress r = Ok None /\
   forall kind key bound, reader_iter_init decompress r kind key bound = Ok None.
-Proof.
-  intros decompress r ib r0 Hi He Hr. unfold reader_iter, reader_iter_init. rewrite Hi.
-  destruct ib as [es rs rl w]. cbn [ab_entries ab_restarts] in He, Hr. subst es rs.
-  split.
-  - unfold block_seek_to_first, seek_restart, nrest, restart_at. cbn [ab_restarts ab_entries length find_off nth N.to_nat].
-    change (0 <? N.of_nat 1) with true. cbn [negb].
-    replace (r0 <? 0) with false by (symmetry; apply N.ltb_ge, N.le_0_l). reflexivity.
-  - intros kind key bound. reflexivity.
-Qed.
+Proof. exact empty_table. Qed.
 Print Assumptions T11_empty_table.
 
 (* non-vacuity: a three-block table written by the model writer passes the check *)
@@ -94,3 +89,71 @@ Example T11_example :
   | _ => False
   end.
 Proof. vm_compute. split; [lia|reflexivity]. Qed.
+
+(* ---- the independent encoder: every legal layout is read back ----------------------------- *)
+Theorem T11c_encoded_read_all : forall compress decompress lay es fuel,
+  layout_ok compress lay es = true -> decompress_inverts compress decompress lay es -> (length es < fuel)%nat ->
+  exists f, encode_table compress lay es = Some f /\ read_all decompress fuel f = Ok es.
+Proof. exact encoded_read_all. Qed.
+Print Assumptions T11c_encoded_read_all.
+
+Theorem T11c_encoded_table_check : forall compress decompress lay es verify,
+  layout_ok compress lay es = true -> decompress_inverts compress decompress lay es -> es <> [] ->
+  exists f r ib iridx,
+    encode_table compress lay es = Some f /\
+    fst (reader_open f verify) = Ok (Some r) /\
+    table_check decompress r = Some (ib, iridx, loaded (data_blocks lay es)) /\
+    table_entries_of (length (loaded (data_blocks lay es))) (blk (loaded (data_blocks lay es))) = es.
+Proof. exact encoded_table_check. Qed.
+Print Assumptions T11c_encoded_table_check.
+
+Theorem T11c_encoded_lookups : forall compress decompress lay es verify,
+  layout_ok compress lay es = true -> decompress_inverts compress decompress lay es -> es <> [] ->
+  exists f r, encode_table compress lay es = Some f /\ fst (reader_open f verify) = Ok (Some r) /\
+    (forall fuel, (length es < fuel)%nat ->
+       exists it, reader_iter decompress r = Ok (Some it) /\ drain decompress fuel r it = Ok es) /\
+    (forall kind k0 k1 fuel, kind <> KIter -> (length es < fuel)%nat ->
+       match reader_iter_init decompress r kind k0 (match kind with KRange => k1 | _ => k0 end) with
+       | Ok (Some it) => drain decompress fuel r it = Ok (filter (fun e => lookup_pred kind k0 k1 (fst e)) es)
+       | Ok None => filter (fun e => lookup_pred kind k0 k1 (fst e)) es = []
+       | _ => False
+       end).
+Proof. exact encoded_table_correct. Qed.
+Print Assumptions T11c_encoded_lookups.
+
+Theorem T11c_encoded_histories : forall compress decompress lay es verify,
+  layout_ok compress lay es = true -> decompress_inverts compress decompress lay es -> es <> [] ->
+  exists f r, encode_table compress lay es = Some f /\ fst (reader_open f verify) = Ok (Some r) /\
+    let bl := loaded (data_blocks lay es) in
+    table_entries_of (length bl) (blk bl) = es /\
+    (exists it, reader_iter decompress r = Ok (Some it) /\
+       forall ops, run_model decompress r it ops = Ok (run_spec (length bl) (blk bl) KIter (it_k it) (Some 0%nat) ops)) /\
+    (forall kind key bound,
+       match reader_iter_init decompress r kind key bound with
+       | Ok (Some it) => forall ops, run_model decompress r it ops =
+                                     Ok (run_spec (length bl) (blk bl) kind bound (Some (gfirst (length bl) (blk bl) key)) ops)
+       | Ok None => gfirst (length bl) (blk bl) key = total (length bl) (blk bl)
+       | _ => False
+       end).
+Proof. exact encoded_table_histories. Qed.
+Print Assumptions T11c_encoded_histories.
+
+Theorem T11c_encoded_empty : forall compress decompress lay verify,
+  layout_ok compress lay [] = true ->
+  exists f r, encode_table compress lay [] = Some f /\ fst (reader_open f verify) = Ok (Some r) /\
+    reader_iter decompress r = Ok None /\
+    forall kind key bound, reader_iter_init decompress r kind key bound = Ok None.
+Proof. exact encoded_empty_correct. Qed.
+Print Assumptions T11c_encoded_empty.
+
+(* a block encoded with any legal restart set and sharing decodes to its entries, restarts and sharing *)
+Theorem T11c_block : forall es ch, block_ok es ch = true ->
+  block_init (encode_block es ch) = Some (ablock_of es ch) /\
+  map ent (ab_entries (ablock_of es ch)) = es /\
+  ridx_of (ablock_of es ch) = Some (ridx_of_choices ch) /\
+  wfb_check (ablock_of es ch) (ridx_of_choices ch) = true.
+Proof.
+  intros es ch H. destruct (encode_block_decodes es ch H) as (H1 & _ & H3 & _ & _ & H6 & _ & H8).
+  split; [exact H1|]. split; [exact H3|]. split; [exact H6|exact H8].
+Qed.
+Print Assumptions T11c_block.
